@@ -1398,7 +1398,12 @@ mismatch between values and axes""".format(inferred, self.values.shape)
         """ initialize a DimArray from a json-compatible dictionary
         """
         jsondict = jsondict.copy()
-        dima = cls(jsondict.pop('values', None), 
+        values = jsondict.pop('values', None)
+        shape = jsondict.get('shape')
+        if values is not None and shape is not None and np.size(values) == 0:
+            # an array without elements is written as an empty list, whatever its shape
+            values = np.asarray(values, dtype=float).reshape(shape)
+        dima = cls(values,
                    axes=jsondict.pop('labels', None), 
                    dims=jsondict.pop('dims', None))
         if 'meta' in jsondict:
